@@ -49,7 +49,8 @@ def gen_silence_case(rng):
     """every loop guard is activated when first handed out; nothing may then come from inside that loop's body (nested loops included)"""
     evs, deferred = rc.all_ast_events()
     direct = [e for e in evs if e not in deferred and e not in ("after_while_test",)]
-    events = sorted(set(["after_for_loop_iter", "after_while_loop_iter"] + [e for e in direct if rng.random() < 0.5]))
+    events = sorted(set(["after_for_loop_iter", "after_while_loop_iter", "after_comprehension_elt", "after_comprehension_if",
+                         "after_dict_comprehension_key", "after_dict_comprehension_value"] + [e for e in direct if rng.random() < 0.5]))
     import battery
     src = battery.programs()["loops"] if rng.random() < 0.2 else rc.gen_program(rng, nstmts=rng.choice([3, 4, 5]))
     if rng.random() < 0.3:
@@ -57,7 +58,20 @@ def gen_silence_case(rng):
         k = rng.randrange(100, 999)
         src += ("for i%d in range(3):\n    def fd%d(p=1):\n        \"\"\"doc %d\"\"\"\n        return p\n"
                 "    class Kd%d:\n        \"\"\"kdoc\"\"\"\n        def m(self):\n            'mdoc'\n            return 1\n" % (k, k, k, k))
+    if rng.random() < 0.35:
+        # comprehensions with compound elements / conditions / keys / values: each such expression has a guard of its own, activated at its
+        # first hand-out; nothing inside it may be delivered afterwards (the comprehension's iterable and the other parts stay loud)
+        k = rng.randrange(100, 999)
+        src += ("cm%d = [q * 2 + a for q in range(4) if q + 1 > 0]\ncd%d = {q + 1: (q, a)[0] for q in range(3)}\n"
+                "cs%d = {abs(q - 1) for q in range(3) if not (q == 5)}\ncg%d = list(-q for q in range(3))\n" % (k, k, k, k))
     c = {"src": src, "events": events, "guards": True, "silence": True, "export": False}
+    if "cm" in src and rng.random() < 0.5:
+        # variant: the guards of all comprehension parts are activated at the first delivery of the run, and the parts' own bracket events are
+        # mostly NOT subscribed (a part is guarded whether or not its own event is)
+        c["silence"] = "comp-first"
+        c["events"] = [e for e in events if not (e.startswith("after_comprehension") or e.startswith("after_dict_comprehension")) or rng.random() < 0.25]
+    if rng.random() < 0.3:
+        c["nested_ctx"] = True          # the handler enters (and leaves) a nested tracing_disabled() context of its own tracer at every third delivery
     if rng.random() < 0.5:
         # a guard-exempt handler on some expression-level events: the ordinary handler must still be silenced
         pool = [e for e in events if e in ("load_name", "after_int", "after_binop", "after_call", "after_argument", "after_assign_rhs", "after_compare", "after_attribute_load",
@@ -74,7 +88,7 @@ def oracle_loop_silence(c, im):
         return f
     if im.get("leaks"):
         l = im["leaks"][0]
-        return {"what": "event %s (%s, line %d) was delivered from inside the body of the loop at lines %s after that loop's guard had been activated"
+        return {"what": "event %s (%s, line %d) was delivered from inside the loop body / comprehension part at %s after its guard had been activated"
                         % (l[0], l[1], l[2], l[3]), "kind": "silence-leak"}
     return None
 
